@@ -23,16 +23,59 @@ class Color(enum.Enum):
 UserId = NewType("UserId", int)
 
 
+class Point(typing.NamedTuple):
+    x: int
+    y: int
+
+
+class Celsius(float):
+    pass
+
+
+from typing_extensions import NotRequired, ReadOnly, TypedDict
+
+
+class TD1(TypedDict):
+    a: int
+
+
+class TD2(TypedDict):
+    a: int
+    b: NotRequired[str]
+
+
+class TD3(TypedDict):
+    a: int
+    b: ReadOnly[NotRequired[str]]
+
+
+class TD4(TypedDict):
+    a: str
+    k: ReadOnly[int]
+
+
+class TD5(TypedDict):
+    a: str
+    k: NotRequired[int]
+
+
 def objects():
     return [0, 1, True, 1.5, 1j, "a", "", b"a", None, (1, "a"), (1, 2), (), [1, 2], ["a"], [], {"a": 1}, {1: "a"}, {}, {1}, frozenset({1}),
-            Color.RED, A(), B(), int, A, B, str]
+            Color.RED, A(), B(), int, A, B, str, Point(1, 2), Celsius(36.6), {"a": 1, "b": "x"}, {"a": 1, "b": 5}, {"a": "x"}, {"a": "x", "k": 1}]
 
 
 def types():
     return [int, bool, float, complex, str, bytes, object, type(None), Literal[1], Literal["a"], Literal[True], Optional[int], Union[int, str],
             List[int], List[str], Set[int], FrozenSet[int], Dict[str, int], Tuple[int, str], Tuple[int, ...], Tuple[()], Sequence[int], Mapping[str, int],
             Iterable[int], Type[A], Type[int], A, B, Color, Literal[Color.RED], Annotated[int, "x"], Optional[List[int]], List[Optional[int]],
-            Dict[str, List[int]], Tuple[int, Tuple[str, int]], Sequence[Union[int, str]]]
+            Dict[str, List[int]], Tuple[int, Tuple[str, int]], Sequence[Union[int, str]], Tuple[int, int], TD1, TD2, TD3, TD4, TD5, Optional[complex]]
+
+
+import typing_extensions
+
+
+def typing_extensions_is_typeddict(T):
+    return typing_extensions.is_typeddict(T)
 
 
 def acc(T, c):
@@ -83,6 +126,23 @@ def member(o, T):
         return all(member(e, args[0]) for e in o)
     if origin is collections.abc.Mapping:
         return isinstance(o, dict) and all(member(k, args[0]) and member(v, args[1]) for k, v in o.items())
+    if typing_extensions_is_typeddict(T):
+        if not isinstance(o, dict):
+            return False
+        hints = typing.get_type_hints(T, include_extras=True)
+        for k, ht in hints.items():
+            required = k in T.__required_keys__
+            if k not in o:
+                if required:
+                    return False
+                continue
+            inner = ht
+            while typing.get_origin(inner) in (NotRequired, ReadOnly, typing_extensions.Required):
+                inner = typing.get_args(inner)[0]
+            if not member(o[k], inner):
+                return False
+        # open TypedDict: extra keys with arbitrary values are allowed structurally
+        return all(isinstance(k, str) for k in o)
     if isinstance(T, type):
         return acc(T, type(o))
     raise NotImplementedError(T)
@@ -109,7 +169,7 @@ def search_literals():
     return None
 
 
-def search_types():
+def search_types(skip_known=True):
     """C04 soundness and laws on type pairs, through the public Value API"""
     from pyanalyze.annotations import type_from_runtime
     from pyanalyze.checker import Checker
@@ -126,6 +186,12 @@ def search_types():
                     if member(o, tb) and not member(o, ta):
                         # documented leniency L2: a fixed-length tuple type accepts a variadic tuple of compatible elements
                         if typing.get_origin(ta) is tuple and typing.get_origin(tb) is tuple and Ellipsis in typing.get_args(tb):
+                            continue
+                        # known finding D23: dict/Mapping types accept an open TypedDict whose declared values fit
+                        if typing_extensions_is_typeddict(tb) and typing.get_origin(ta) in (dict, collections.abc.Mapping) and skip_known:
+                            continue
+                        # known finding D24: a TypedDict accepts dict[str, X] through its dict[str, ...] generic base (keys may be missing)
+                        if typing_extensions_is_typeddict(ta) and typing.get_origin(tb) is dict and skip_known:
                             continue
                         return f"{ta} accepts {tb}, but {o!r} belongs to {tb} and not to {ta}"
                 except NotImplementedError:
@@ -161,6 +227,29 @@ KERNELS = ["pyanalyze.value.Value.can_assign", "pyanalyze.value.MultiValuedValue
            "pyanalyze.type_object.TypeObject.is_assignable_to_type", "pyanalyze.type_object.TypeObject.is_instance", "pyanalyze.value.Value.is_assignable",
            "pyanalyze.value.AnnotatedValue.get_metadata_of_type", "pyanalyze.value.unify_bounds_maps"]
 REPLAYERS = {k: r_c03 for k in KERNELS}
+def w_d23(rec):
+    from pyanalyze.annotations import type_from_runtime
+    from pyanalyze.checker import Checker
+    ctx = Checker()
+    a, b = type_from_runtime(Dict[str, int]), type_from_runtime(TD1)
+    ok = a.is_assignable(b, ctx)
+    o = {"a": 1, "b": "x"}
+    return (ok and member(o, TD1) and not member(o, Dict[str, int])), f"dict[str, int] accepts TypedDict TD1{{a: int}}: {ok}; {o!r} is a TD1 (open TypedDict, extra key) but not a dict[str, int]"
+
+
+def w_d24(rec):
+    from pyanalyze.annotations import type_from_runtime
+    from pyanalyze.checker import Checker
+    ctx = Checker()
+    a, b = type_from_runtime(TD1), type_from_runtime(Dict[str, int])
+    ok = a.is_assignable(b, ctx)
+    return (ok and member({}, Dict[str, int]) and not member({}, TD1)), f"TypedDict TD1{{a: int}} accepts dict[str, int]: {ok}; {{}} is a dict[str, int] but lacks the required key 'a'"
+
+
+REPLAYERS["C04.D23"] = w_d23
+REPLAYERS["C04.D24"] = w_d24
+REPLAYERS["C03.bounded"] = lambda rec: (lambda m: (bool(m), m or "is_assignable(o, T) == member(o, T) on the object x type universe"))(search_literals())
+REPLAYERS["C04.bounded"] = lambda rec: (lambda m: (bool(m), m or "accepted type pairs are membership-sound; reflexivity, Never, object and union laws hold on the type universe"))(search_types())
 
 if __name__ == "__main__":
     print(search_literals())
